@@ -55,6 +55,15 @@ def jobs(tier):
                                         "Parameter.validate", "fill_in_let", "expand_macros", "GateReplacer.visit_NamedQubit", "run_jaqal_circuit"],
                              note=f"{t} over the native gate set, override mask {mask}: if the reference finds a reference that cannot be honoured, some stage up to "
                                   "emulation raises JaqalError (never another exception, never a result)"))
+    for order in range(3):
+        u, v = [(0, 0), (1, 1), (1, 0)][order]
+        out.append(CH(name=f"c14_names_o{order}", base="c14_names", func=f"{H}:c14_names",
+                      params=[("n0", "int"), ("n1", "int"), ("n2", "int"), ("n3", "int")] + ([] if q else [("u", "int"), ("v", "int")]),
+                      pre=["n0 == 0" if q else "0 <= n0 < 4", "0 <= n1 < 4", "0 <= n2 < 4", "0 <= n3 < 4"] + ([] if q else ["0 <= u < 2", "0 <= v < 2"]),
+                      fixed=dict({"order": order}, **({"u": u, "v": v} if q else {})), timeout=400 if q else 1500,
+                      functions=["Builder.build_circuit", "Builder.add_to_context", "Builder.build_let", "Builder.build_register", "Builder.build_map", "fill_in_let", "run_jaqal_circuit"],
+                      note="names of two lets, the register and an alias drawn from a pool of four: a name defined twice (by the same or by different kinds of declaration) "
+                           "is rejected with JaqalError; four distinct names run"))
     for inj in range(4):
         for mb in range(4):
             out.append(CH(name=f"gatesets_inj{inj}_b{mb}", base="c14_gatesets", func=f"{H}:c14_gatesets", params=[("ma", "int"), ("nargs", "int"), ("other", "bool"), ("as_list", "bool")],
